@@ -492,6 +492,31 @@ class Program:
                         f"{fi.qual}.<local>{f.id}" not in BASELINE_LOCALS:
                     local.append(f"calls the local function `{f.id}` (not "
                                  "inlinable)")
+        # instances of classes outside the inventory that are called
+        from .normalise import baseline
+        known_cls = {q.split(":")[1].split(".")[0] for q in baseline()
+                     if ":" in q and "." in q.split(":")[1]
+                     and not q.split(":")[1].startswith("=")}
+        known_cls |= {q.split(":=")[1].split(".")[0] for q in baseline()
+                      if ":=" in q and "." in q.split(":=")[1]}
+        new_cls = {c for c in self.classes if c not in known_cls}
+        if new_cls:
+            held: dict[str, str] = {}
+            for n in ast.walk(fi.node):
+                if isinstance(n, ast.Assign) and isinstance(
+                        n.value, ast.Call) and isinstance(
+                        n.value.func, ast.Name) and n.value.func.id in new_cls:
+                    for t in n.targets:
+                        if isinstance(t, ast.Name):
+                            held[t.id] = n.value.func.id
+            for n in ast.walk(fi.node):
+                if isinstance(n, ast.Call):
+                    f = n.func
+                    base = f.value if isinstance(f, ast.Attribute) else f
+                    if isinstance(base, ast.Name) and base.id in held:
+                        local.append(f"uses an instance of the class "
+                                     f"{held[base.id]} (outside the rule "
+                                     "inventory)")
         if not new_funcs and not new_names:
             return sorted(set(local))
         short_new = {q.split(":")[1].split(".")[-1]: q for q in new_funcs}
